@@ -1103,7 +1103,9 @@ fn uri_check(uri: &str) -> Result<bool, Fail> {
             Ok(uri.contains('/'))
         }
         Err(e) => {
-            if uri.is_empty() {
+            // (no statement obliges the one-shot parser to take a request line beyond the line
+            // limit: there is then no URI object to judge)
+            if uri.is_empty() || req.len() - 2 > 1024 {
                 Ok(false)
             } else {
                 Err(Fail::new("C16:uri-rejected", format!("URI \"{}\" rejected by the one-shot parser: {:?}", uri, e)))
@@ -1328,7 +1330,13 @@ impl EndpointHandler<u32> for Rec {
 const PATHS: [&str; 13] = ["", "/", "/a", "/a/", "/a/b", "/ab", "/a:b", ":", "/GET:/a", "/api/a", "/fwd/http://up/a", "/\u{e9}/a", "//a"];
 const PREFIXES: [&str; 5] = ["", "/api", "/a", "/api/", "/"];
 
+thread_local! {
+    /// header blocks for the requests of the next `c17_run` (by request index; none when empty)
+    static C17_HEADERS: std::cell::RefCell<Vec<String>> = std::cell::RefCell::new(Vec::new());
+}
+
 fn c17_run(prefix: &str, regs: &[(u8, usize)], reqs: &[(u8, String)], server_id: &str) -> Result<(usize, usize, usize), Fail> {
+    let hdrs: Vec<String> = C17_HEADERS.with(|c| std::mem::take(&mut *c.borrow_mut()));
     let log = Arc::new(Mutex::new(Vec::new()));
     let mut router: HttpRoutes<u32> = HttpRoutes::new(server_id.to_string(), prefix.to_string());
     let mut model: BTreeMap<(u8, String), usize> = BTreeMap::new();
@@ -1350,7 +1358,7 @@ fn c17_run(prefix: &str, regs: &[(u8, usize)], reqs: &[(u8, String)], server_id:
     let mut hits = 0;
     let mut misses = 0;
     for (k, (m, uri)) in reqs.iter().enumerate() {
-        let bytes = format!("{} {} HTTP/1.1\r\n\r\n", std::str::from_utf8(METHODS[*m as usize]).unwrap(), uri);
+        let bytes = format!("{} {} HTTP/1.1\r\n{}\r\n", std::str::from_utf8(METHODS[*m as usize]).unwrap(), uri, hdrs.get(k).map(|h| h.as_str()).unwrap_or(""));
         let req = match Request::try_from(bytes.as_bytes(), None) {
             Ok(r) => r,
             Err(_) => continue,
@@ -1428,7 +1436,8 @@ fn c17_tables(input: &Input, obs: &mut Obs) -> Result<(), Fail> {
     // sequence, which would end the header line and make the stamp unobservable)
     let sid_owned: String;
     let sid: &str = if s.chance(200) {
-        ["Mock_Server", "", "id with spaces", "\u{e9}"][s.weighted(&[10, 1, 2, 1])]
+        // (among them the identity a response carries by default)
+        ["Mock_Server", "", "id with spaces", "\u{e9}", "Firecracker API", "handler-own-server"][s.weighted(&[10, 1, 2, 1, 4, 1])]
     } else {
         const ALPHA: [&str; 20] = ["a", "Z", "0", "-", "_", "/", ".", " ", "\t", ":", ": ", "\u{1}", "\u{7f}", "\u{b}", "\r", "\n", "\u{e9}", "\u{a0}", "\u{3000}", "\0"];
         let n = s.below(13);
@@ -1443,6 +1452,28 @@ fn c17_tables(input: &Input, obs: &mut Obs) -> Result<(), Fail> {
         }
         &sid_owned
     };
+    // now and then the requests carry header fields: only the method and the path decide
+    if s.chance(90) {
+        const NAMES: [&str; 14] = ["X-HTTP-Method-Override", "X-HTTP-Method", "X-Method-Override", "X-Original-URL", "X-Rewrite-URL", "X-Forwarded-Prefix", "X-Forwarded-Host", "Host", "Content-Location", "Accept", "Content-Type", "Server", "Connection", "X-Script-Name"];
+        let mut hs = Vec::new();
+        for _ in 0..reqs.len() {
+            let mut h = String::new();
+            for _ in 0..s.range(1, 2) {
+                let n = NAMES[s.below(NAMES.len())];
+                let v = match s.below(5) {
+                    0 => ["GET", "PUT", "PATCH", "patch", "DELETE"][s.below(5)].to_string(),
+                    1 => format!("{}{}", prefix, PATHS[s.below(PATHS.len())]),
+                    2 => PREFIXES[s.below(PREFIXES.len())].to_string(),
+                    3 => ["application/json", "text/plain", "close", "host"][s.below(4)].to_string(),
+                    _ => format!("http://other{}", PATHS[s.below(PATHS.len())]),
+                };
+                h.push_str(&format!("{}: {}\r\n", n, v));
+            }
+            hs.push(h);
+        }
+        C17_HEADERS.with(|c| *c.borrow_mut() = hs);
+        obs.label("requests_with_header_fields");
+    }
     let (hits, misses, dup) = c17_run(prefix, &regs, &reqs, sid)?;
     if hits > 0 {
         obs.label("hit");
@@ -1632,6 +1663,8 @@ fn c17_authority(input: &Input, obs: &mut Obs) -> Result<(), Fail> {
                 let bytes = format!("GET {} HTTP/1.1\r\n\r\n", uri);
                 let req = match Request::try_from(bytes.as_bytes(), None) {
                     Ok(r) => r,
+                    // (only within the line limit is the one-shot parser obliged to take the request)
+                    Err(_) if bytes.len() - 2 > 1024 => continue,
                     Err(e) => return Err(Fail::new("C17:request", format!("absolute-form request with an authority of {} bytes rejected: {:?}", alen, e))),
                 };
                 log.lock().unwrap().clear();
@@ -1961,6 +1994,16 @@ impl Write for ChunkSink {
 }
 
 fn c05_body(s: &mut Src) -> Vec<u8> {
+    if s.chance(40) {
+        // bodies a writer might be tempted to normalise: byte order marks, compression magic,
+        // blank edges, a chunked-encoding terminator, NUL
+        const HEADS: [&[u8]; 12] = [b"\xef\xbb\xbf", b"\xfe\xff", b"\xff\xfe", b"\x1f\x8b\x08", b" ", b"\n", b"\r\n", b"\t", b"\0", b"0\r\n\r\n", b"\xef\xbb", b"\xc2\xa0"];
+        const TAILS: [&[u8]; 8] = [b"", b"\n", b"\r\n", b" ", b"\0", b"\r\n\r\n", b"\xef\xbb\xbf", b"\t"];
+        let mut v = HEADS[s.below(HEADS.len())].to_vec();
+        v.extend_from_slice([&b"{\"a\": 1}"[..], b"", b"[]", b"x"][s.below(4)]);
+        v.extend_from_slice(TAILS[s.below(TAILS.len())]);
+        return v;
+    }
     match s.weighted(&[6, 3, 3, 3, 3, 2, 1]) {
         0 => filler(0, s.u8(), s.range(1, 60)),
         1 => Vec::new(),
@@ -1984,6 +2027,17 @@ pub fn c05_call(s: &mut Src, kind: usize) -> Call {
         3 => Call::SetEncoding,
         4 => {
             let v = ["srv", "", "Firecracker API", "a: b", "\u{e9}\u{4e2d}", "x y z", "HTTP/1.1 200 "];
+            if s.chance(80) {
+                // any characters inside the name (HTAB, other C0/C1 controls, DEL, NBSP, a byte
+                // order mark; never CR or LF, which would end the line), letters at both ends
+                const INNER: [&str; 14] = ["\t", "\u{1}", "\u{7}", "\u{b}", "\u{1b}", "\u{7f}", "\u{85}", "\u{9f}", "\u{a0}", "\u{feff}", "\0", " ", ":", "\u{2028}"];
+                let mut t = String::from("S");
+                for _ in 0..s.range(1, 4) {
+                    t.push_str(INNER[s.below(INNER.len())]);
+                    t.push('v');
+                }
+                return Call::SetServer(t);
+            }
             Call::SetServer(v[s.below(v.len())].to_string())
         }
         5 => {
@@ -2669,6 +2723,8 @@ const C14_BASES: [&[u8]; 4] = [
     b"GET /x HTTP/1.1\r\nContent-Length: 1\r\n\r\nz",
 ];
 
+const C14_TOKENS: [&[u8]; 10] = [b"\r\n", b"\r\n\r\n", b"\n\r", b"\r\r\n", b"\n\n", b"  ", b" \r\n", b"\r\n ", b" HTTP/1.1\r\n", b"\r\nX: y"];
+
 fn c14_edit(input: &Input, obs: &mut Obs) -> Result<(), Fail> {
     let p = input.params();
     let mut slice = C14_BASES[p[0] as usize].to_vec();
@@ -2678,7 +2734,14 @@ fn c14_edit(input: &Input, obs: &mut Obs) -> Result<(), Fail> {
             slice.remove(pos);
         }
         1 => slice[pos] = p[3] as u8,
-        _ => slice.insert(pos, p[3] as u8),
+        2 => slice.insert(pos, p[3] as u8),
+        _ => {
+            // a short token inserted (line ends, blank lines, blanks, a second version token)
+            let tok = C14_TOKENS[p[3] as usize];
+            let tail = slice.split_off(pos);
+            slice.extend_from_slice(tok);
+            slice.extend_from_slice(&tail);
+        }
     }
     c14_check(&slice, obs)?;
     obs.nontrivial = true;
@@ -2692,11 +2755,11 @@ fn c14_edit_enum(_tier: Tier, shard: u64, nshards: u64, f: &mut dyn FnMut(&[u64]
     let mut i = 0u64;
     for (b, base) in C14_BASES.iter().enumerate() {
         for pos in 0..=base.len() as u64 {
-            for op in 0..3u64 {
+            for op in 0..4u64 {
                 if op < 2 && pos as usize >= base.len() {
                     continue;
                 }
-                let nsym = if op == 0 { 1 } else { 256 };
+                let nsym = if op == 0 { 1 } else if op == 3 { C14_TOKENS.len() as u64 } else { 256 };
                 for sym in 0..nsym {
                     i += 1;
                     if i % nshards == shard && !f(&[b as u64, pos, op, sym]) {
